@@ -485,9 +485,9 @@ class Engine:
             try:
                 try:
                     v = ex.call(fv, a, kw)
-                    outcomes.append(Outcome("return", v, list(ex.pc), list(ex.wd), list(ex.facts), list(ex.qfacts), list(ex.decisions), ex.heap_info(a, kw)))
+                    outcomes.append(Outcome("return", v, list(ex.pc), ex.wd, ex.facts, ex.qfacts, list(ex.decisions), ex.heap_info(a, kw)))
                 except Raised as r:
-                    outcomes.append(Outcome("raise", r.exc, list(ex.pc), list(ex.wd), list(ex.facts), list(ex.qfacts), list(ex.decisions), ex.heap_info(a, kw)))
+                    outcomes.append(Outcome("raise", r.exc, list(ex.pc), ex.wd, ex.facts, ex.qfacts, list(ex.decisions), ex.heap_info(a, kw)))
             except _Backtrack:
                 pass
             trail = next_trail(ex.decisions)
@@ -923,6 +923,8 @@ class Exec:
             return list(zip(*[self.iterate(x) for x in it.parts]))
         if isinstance(it, ObjV) and it.cls.kind == "namedtuple":
             return [it.fields[n] for n in it.cls.field_names]
+        if isinstance(it, RecordV):
+            return list(it.values)
         raise OutOfSubset(f"iteration over {type(it).__name__}")
 
     # ---- assignment
@@ -1178,13 +1180,21 @@ class Exec:
         return self.call(f, args, kwargs)
 
     def nested_should_merge(self, f):
-        return len(self.frames) >= 1 and (self.merge_mode or getattr(self, "merge_nested", True))
+        if self.merge_mode:
+            return True
+        if self.trail is None:
+            return True
+        return not writes_params(f.node)
 
     def comprehension(self, e, make):
         if len(e.generators) != 1:
             raise OutOfSubset("nested comprehension")
         g = e.generators[0]
         it = self.eval(g.iter)
+        if isinstance(it, RecArrV):
+            if g.ifs:
+                raise OutOfSubset("filtered comprehension over a record array")
+            return self.eng.lib.map_over_records(self, it, lambda v: self._comp_body(g.target, v, e))
         if isinstance(it, ArrV) and it.static_len() is None or (isinstance(it, ArrV) and it.mask is not None):
             if g.ifs:
                 raise OutOfSubset("filtered comprehension over symbolic array")
@@ -1233,6 +1243,14 @@ class Exec:
 MODULE_STATE = {}  # id(container) -> (module, name): mutable module-level objects
 
 
+class RecordV:
+    """one record of a structured array"""
+
+    def __init__(self, names, values):
+        self.names = list(names)
+        self.values = list(values)
+
+
 class SliceV:
     def __init__(self, lo, hi, step):
         self.lo, self.hi, self.step = lo, hi, step
@@ -1256,6 +1274,40 @@ class ZipV:
 class DictProxy:
     def __init__(self, obj):
         self.obj = obj
+
+
+_WP = {}
+
+
+def writes_params(node):
+    """static check: does the function store into (or delete) an attribute/subscript of one of its
+    parameters?  Such callees are inlined into the caller's path enumeration instead of merged."""
+    r = _WP.get(id(node))
+    if r is not None:
+        return r[0]
+    res = False
+    if isinstance(node, ast.FunctionDef):
+        params = {a.arg for a in node.args.posonlyargs + node.args.args + node.args.kwonlyargs}
+
+        def base(t):
+            while isinstance(t, (ast.Subscript, ast.Attribute)):
+                t = t.value
+            return t.id if isinstance(t, ast.Name) else None
+
+        for n in ast.walk(node):
+            tgts = []
+            if isinstance(n, ast.Assign):
+                tgts = n.targets
+            elif isinstance(n, (ast.AugAssign, ast.AnnAssign)):
+                tgts = [n.target]
+            elif isinstance(n, ast.Delete):
+                tgts = n.targets
+            for t in tgts:
+                for e in (t.elts if isinstance(t, (ast.Tuple, ast.List)) else [t]):
+                    if isinstance(e, (ast.Subscript, ast.Attribute)) and base(e) in params:
+                        res = True
+    _WP[id(node)] = (res, node)
+    return res
 
 
 def _load(tg):
